@@ -649,6 +649,11 @@ def run(prog, rep, tier):
                 admit = k_ - 1
             else:
                 admit = k_
+            if k_ < 64:
+                # an emptiness / minimum-length test (`len() > 0`), not an upper limit: the side of the
+                # small values is the rejected one there, so it is recorded but not judged
+                rep.examined(R1614, tb16.path + "|member-path-minimum-test@%d" % st_[3], sample={"line": st_[3], "comparison": opn, "constant": k_, "note": "minimum-length test, not judged"})
+                continue
             n1614 += 1
             rep.examined(R1614, tb16.path + "|member-path-length-limit@%d" % n1614, sample={"line": st_[3], "comparison": opn, "constant": k_, "admits_up_to": admit})
             if admit < PATH_ADMIT:
